@@ -62,6 +62,7 @@ enum Tpl {
     T_E_DTOR_ERR,       // runtime error inside a user destructor (known finding D13) - only when enabled
     T_QCYCLE,           // garbage cycle whose nodes own an object with a qubit and an echoing destructor (known finding D19) - only when enabled
     T_E_GENERIC_STATIC, // generic class whose static initialiser instantiates the same specialisation
+    T_E_RECURSE,        // bounded recursion holding an object (with destructor) per frame, optionally failing at the bottom
     T_COUNT
 };
 
@@ -70,7 +71,7 @@ inline const char* tplName(int t) {
                               "static_assign", "loop_alloc", "destroy", "cycle_drop", "virtual", "box", "ret_while_dtor", "churn", "churn_d",
                               "self_cycle_live", "show_all", "static_cycle", "drop_var", "keep_chain", "diamond_generic", "method_churn",
                               "e_div0", "e_mod0", "e_longmin_mod", "e_index", "e_null_field", "e_null_call", "e_deep", "e_voverload", "e_ctor_err",
-                              "e_fieldinit_err", "e_int_extreme", "e_literal_range", "e_cast", "e_neg_array", "e_destroy_twice", "e_super_call", "e_dtor_err", "qubit_owner_in_garbage_cycle", "e_generic_static"};
+                              "e_fieldinit_err", "e_int_extreme", "e_literal_range", "e_cast", "e_neg_array", "e_destroy_twice", "e_super_call", "e_dtor_err", "qubit_owner_in_garbage_cycle", "e_generic_static", "e_recurse"};
     return (t >= 0 && t < T_COUNT) ? n[t] : "?";
 }
 
@@ -203,6 +204,7 @@ inline std::string preamble(const Plan& p) {
             "    public function touch() -> int { this.hits = this.hits + 1; return this.hits; }\n"
             "    public function viaShared() -> int { return shared.touch(); }\n"
             "}\n"
+            "function rec(int n, int bad) -> int { D keep = new D(n % 3); if (n <= 0) { if (bad == 1) { return F.boom(5); } return 0; } int r = 1 + rec(n - 1, bad); return r + keep.k - keep.k; }\n"
             "class BadInit {\n"
             "    public N held = F.mk(56);\n"
             "    public int q = F.boom(3);\n"
@@ -301,6 +303,7 @@ inline std::string renderStmt(const Plan& p, const Stmt& st, int index) {
             std::string rel = st.b % 2 ? "    bdt" + I(index) + " = null;\n" : "    destroy bdt" + I(index) + ";\n";
             return "    " + cls + " bdt" + I(index) + " = new " + cls + "();\n" + rel + "    echo(\"after dtor err\");\n    echo(\"still running\");\n";
         }
+        case T_E_RECURSE: return "    echo(rec(" + I(3 + (st.a % 12) * 4) + ", " + I(st.b % 3 == 0 ? 1 : 0) + "));\n";
         case T_E_GENERIC_STATIC: {
             std::string ty = st.a % 2 ? "string" : "int";
             return "    Registry<" + ty + "> rg" + I(index) + " = new Registry<" + ty + ">();\n    echo(rg" + I(index) + ".touch());\n    echo(rg" + I(index) + ".viaShared());\n";
@@ -352,7 +355,7 @@ inline Plan generate(sim::Rng& g, bool edge, bool allowDtorErr, bool allowQcycle
                                  T_LOOP_ALLOC, T_DESTROY, T_CYCLE_DROP, T_VIRTUAL, T_BOX, T_RET_WHILE_DTOR, T_CHURN, T_CHURN_D, T_SELF_CYCLE_LIVE, T_SHOW_ALL,
                                  T_STATIC_CYCLE, T_DROP_VAR, T_KEEP_CHAIN, T_DIAMOND_GENERIC, T_METHOD_CHURN};
     static const int edgeTpls[] = {T_E_DIV0, T_E_MOD0, T_E_LONGMIN_MOD, T_E_INDEX, T_E_NULL_FIELD, T_E_NULL_CALL, T_E_DEEP, T_E_VOVERLOAD, T_E_CTOR_ERR, T_E_FIELDINIT_ERR,
-                                   T_E_INT_EXTREME, T_E_LITERAL_RANGE, T_E_CAST, T_E_NEG_ARRAY, T_E_DESTROY_TWICE, T_E_SUPER_CALL, T_E_GENERIC_STATIC};
+                                   T_E_INT_EXTREME, T_E_LITERAL_RANGE, T_E_CAST, T_E_NEG_ARRAY, T_E_DESTROY_TWICE, T_E_SUPER_CALL, T_E_GENERIC_STATIC, T_E_RECURSE};
     double edgeShare = edge ? 0.35 : 0.0;
     for (int i = 0; i < n; ++i) {
         Stmt st;
